@@ -681,12 +681,17 @@ class SmallVectorBase : private Alloc {
 
   void move_assign(SmallVectorBase &o, SizeType inplaceCapa) noexcept(is_shift_nothrow<T>::value) {
     if (o.isSmall()) {
-      // No need to check 'this' capacity. If 'this' is small, then 'this' capacity is same as 'o'.
-      // If 'this' is large, then 'this' capacity is larger by design.
-      // Indeed, capacity cannot shrink, except for shrink_to_fit which resets to small state if possible.
-      // Besides, if 'this' is large, let's not shrink to small size and keep our dynamic memory for now.
-      // To sum-up, in this context, we do not touch our capacity, only move and relocates o's elements
+      // If 'this' is small, then 'this' capacity is same as 'o'.
+      // If 'this' is large, its capacity is usually larger (capacity cannot shrink, except for shrink_to_fit which
+      // resets to small state if possible), and we keep our dynamic memory for now.
       const SizeType oSize = o._capa;
+      if (!isSmall() && _capa < oSize) {
+        // Our dynamic buffer has been stolen from another vector (construction from a vector, swap2) and is too
+        // small for the elements of 'o': release it and come back to the small state.
+        destroyFreeStorage();
+        _capa = 0;
+        _size = inplaceCapa;
+      }
       move_n(o._storage.ptr(), oSize, begin(), size());
       o._capa = 0;
       o._size = inplaceCapa;
